@@ -394,6 +394,9 @@ class C13(Check):
                 for e in evs:
                     if e[0] == 10 and e[1] == 3:
                         return ("keyerror-in-close", "KeyError escaped the data-channel layer")
+                    if e[0] in (6, 7) and not 0 <= e[1] < 2 ** 32:
+                        return ("reconfig-sequence-out-of-range", f"a RE-CONFIG parameter carries sequence number {e[1]}, "
+                                                                  "which does not fit its 32-bit field (serialising it raises)")
                     if e[0] == 0:
                         opens[e[1]] = opens.get(e[1], 0) + 1
                     if e[0] == 1:
